@@ -162,8 +162,10 @@ theorem processDepositsForPool_tips (env : Env) (k : PoolKey) (s : State) (deps 
   split at h
   · cases h
   · cases h
-  · obtain ⟨coins, _, h2⟩ := Outcome.bind_eq_ok h
-    cases h2; exact rfl
+  · split at h
+    · cases h; exact SameTips.refl s
+    · obtain ⟨coins, _, h2⟩ := Outcome.bind_eq_ok h
+      cases h2; exact rfl
 
 theorem processDeposits_tips (env : Env) (s s' : State) (h : processDeposits env s = .ok s') :
     SameTips s s' := by
